@@ -1,6 +1,8 @@
 // native replay for unit mp: evaluates the obligations of the harness on the REAL xenium::marked_ptr / utils::rotate
 // for the configuration and inputs cbmc found.   in_mb=MarkBits in_mu=MaxUpperMarkBits in_p in_m in_p2 in_m2 in_w in_w2 in_c in_v
 // exit 0: everything holds, 1: a violation was reproduced (printed), 2: configuration not instantiated here
+// All 33 x 34 (MarkBits 0..32, MaxUpperMarkBits 0..33) instantiations are compiled; per instantiation only thin wrappers
+// around the real members are generated, the checks themselves are written once over a table of function pointers.
 #include <xenium/marked_ptr.hpp>
 #include <cstdio>
 #include <cstdlib>
@@ -13,98 +15,117 @@ static std::map<std::string, unsigned long long> args;
 using W = uintptr_t;
 static int bad = 0;
 #define CHECK(name, cond, ...) do { if (!(cond)) { printf("VIOLATED %s: ", name); printf(__VA_ARGS__); printf("\n"); bad++; } } while (0)
+#define Z(x) ((size_t)(x))
+
+struct Ops {
+  W (*make)(W p, W m); W (*dflt)(); W (*get)(W raw); W (*arrow)(W raw); W (*mark)(W raw); W (*reset)(W raw);
+  bool (*eq)(W, W); bool (*ne)(W, W); bool (*boolean)(W);
+  W pointer_mask, pointer_bits, mark_mask, nmb, lower, upper;
+};
+template <W MB, W MU> struct Inst {
+  using MP = xenium::marked_ptr<Foo, MB, MU>;
+  static MP raw(W w) { MP x; x._ptr = reinterpret_cast<Foo*>(w); return x; }      // -fno-access-control
+  static W make(W p, W m) { if constexpr (MB == 0) { (void)m; MP x(reinterpret_cast<Foo*>(p)); return reinterpret_cast<W>(x._ptr); }
+                            else { MP x(reinterpret_cast<Foo*>(p), m); return reinterpret_cast<W>(x._ptr); } }
+  static W dflt() { MP x; return reinterpret_cast<W>(x._ptr); }
+  static W get(W w) { return reinterpret_cast<W>(raw(w).get()); }
+  static W arrow(W w) { return reinterpret_cast<W>(raw(w).operator->()); }
+  static W mark(W w) { return raw(w).mark(); }
+  static W reset(W w) { MP x = raw(w); x.reset(); return reinterpret_cast<W>(x._ptr); }
+  static bool eq(W a, W b) { return raw(a) == raw(b); }
+  static bool ne(W a, W b) { return raw(a) != raw(b); }
+  static bool boolean(W a) { return static_cast<bool>(raw(a)); }
+  static Ops ops() {
+    Ops o{make, dflt, get, arrow, mark, reset, eq, ne, boolean, 0, 0, 0, MP::number_of_mark_bits, 0, 0};
+    if constexpr (MB != 0) { o.pointer_mask = MP::pointer_mask; o.pointer_bits = MP::pointer_bits; o.mark_mask = MP::MarkMask; o.lower = MP::lower_mark_bits; o.upper = MP::upper_mark_bits; }
+    return o;
+  }
+};
 
 static W low_ones(W n) { return n >= 64 ? ~W(0) : ((W(1) << n) - 1); }
 static W reserved(W mb, W mu) { W up = mb < mu ? mb : mu, lo = mb - up; return ~low_ones(64 - up) | low_ones(lo); }
 
-template <W MB, W MU> int run() {
-  using MP = xenium::marked_ptr<Foo, MB, MU>;
+static int run(const Ops& o, W MB, W MU) {
   W p = args["in_p"], m = args["in_m"], p2 = args["in_p2"], m2 = args["in_m2"], w = args["in_w"], w2 = args["in_w2"];
-  if constexpr (MB == 0) {
-    MP a(reinterpret_cast<Foo*>(p)), b(reinterpret_cast<Foo*>(p2)), x, d;
-    x._ptr = reinterpret_cast<Foo*>(w);
-    CHECK("mp.spec0.roundtrip", reinterpret_cast<W>(a.get()) == p && a.mark() == 0, "get()=%#zx mark()=%zu for p=%#zx", (size_t)a.get(), (size_t)a.mark(), (size_t)p);
-    CHECK("mp.spec0.roundtrip", (a == b) == (p == p2) && (a != b) == (p != p2), "== / != on %#zx, %#zx", (size_t)p, (size_t)p2);
-    CHECK("mp.spec0.roundtrip", static_cast<bool>(a) == (p != 0), "bool for p=%#zx", (size_t)p);
-    x.reset();
-    CHECK("mp.spec0.roundtrip", x.get() == nullptr && x.mark() == 0 && !x && x == d, "reset");
-    CHECK("mp.consts.layout", MP::number_of_mark_bits == 0, "number_of_mark_bits");
-  } else {
-    const W rsv = reserved(MB, MU), mm = low_ones(MB);
-    // constants (private members: compiled with -fno-access-control)
-    CHECK("mp.consts.layout", MP::pointer_mask == W(~rsv) && MP::pointer_bits == 64 - MB && MP::MarkMask == mm && MP::number_of_mark_bits == MB &&
-          MP::upper_mark_bits == (MB < MU ? MB : MU) && MP::lower_mark_bits + MP::upper_mark_bits == MB,
-          "pointer_mask=%#zx (spec %#zx) pointer_bits=%zu lower=%zu upper=%zu", (size_t)MP::pointer_mask, (size_t)W(~rsv), (size_t)MP::pointer_bits, (size_t)MP::lower_mark_bits, (size_t)MP::upper_mark_bits);
-    bool canon = (p & rsv) == 0, canon2 = (p2 & rsv) == 0;
-    CHECK("mp.ctor.precondition", ((p & ~MP::pointer_mask) == 0) == canon, "the class' assert %s p=%#zx, the specification says %s", canon ? "rejects" : "accepts", (size_t)p, canon ? "canonical" : "not canonical");
-    if (bad) return 1;   // constructing would only trip the assert
-    if (canon) {
-      MP x(reinterpret_cast<Foo*>(p), m);
-      CHECK("mp.get.roundtrip", reinterpret_cast<W>(x.get()) == p, "marked_ptr<%zu,%zu>(%#zx, %#zx).get() = %#zx", (size_t)MB, (size_t)MU, (size_t)p, (size_t)m, (size_t)x.get());
-      CHECK("mp.get.roundtrip", reinterpret_cast<W>(x.operator->()) == p, "operator->");
-      CHECK("mp.mark.roundtrip", x.mark() == (m & mm), "marked_ptr<%zu,%zu>(%#zx, %#zx).mark() = %#zx, expected %#zx", (size_t)MB, (size_t)MU, (size_t)p, (size_t)m, (size_t)x.mark(), (size_t)(m & mm));
-      CHECK("mp.mark.roundtrip", (reinterpret_cast<W>(x._ptr) & ~rsv) == p, "representation %#zx changes pointer bits", (size_t)x._ptr);
-      bool null0 = p == 0 && (m & mm) == 0;
-      CHECK("mp.reset.null", static_cast<bool>(x) == !null0, "operator bool = %d for (p=%#zx, mark=%#zx)", (int)static_cast<bool>(x), (size_t)p, (size_t)(m & mm));
-      MP r; r._ptr = reinterpret_cast<Foo*>(w); r.reset();
-      CHECK("mp.reset.null", (x == r) == null0, "== with a reset pointer");
-      if (canon2) {
-        MP y(reinterpret_cast<Foo*>(p2), m2);
-        bool same = p == p2 && (m & mm) == (m2 & mm);
-        CHECK("mp.eq.value", (x == y) == same, "(%#zx,%#zx) == (%#zx,%#zx) gives %d, expected %d", (size_t)p, (size_t)m, (size_t)p2, (size_t)m2, (int)(x == y), (int)same);
-        CHECK("mp.eq.value", (x != y) == !same, "(%#zx,%#zx) != (%#zx,%#zx) gives %d, expected %d", (size_t)p, (size_t)m, (size_t)p2, (size_t)m2, (int)(x != y), (int)!same);
-      }
+  if (MB == 0) {
+    W a = o.make(p, 0), b = o.make(p2, 0);
+    CHECK("mp.spec0.roundtrip", o.get(a) == p && o.arrow(a) == p && o.mark(a) == 0, "get()=%#zx mark()=%zu for p=%#zx", Z(o.get(a)), Z(o.mark(a)), Z(p));
+    CHECK("mp.spec0.roundtrip", o.eq(a, b) == (p == p2) && o.ne(a, b) == (p != p2), "== / != on %#zx, %#zx", Z(p), Z(p2));
+    CHECK("mp.spec0.roundtrip", o.boolean(a) == (p != 0), "bool for p=%#zx", Z(p));
+    W x = o.reset(w);
+    CHECK("mp.spec0.roundtrip", o.get(x) == 0 && o.mark(x) == 0 && !o.boolean(x) && o.eq(x, o.dflt()), "reset");
+    CHECK("mp.consts.layout", o.nmb == 0, "number_of_mark_bits");
+    return bad ? 1 : 0;
+  }
+  const W rsv = reserved(MB, MU), mm = low_ones(MB);
+  CHECK("mp.consts.layout", o.pointer_mask == W(~rsv) && o.pointer_bits == 64 - MB && o.mark_mask == mm && o.nmb == MB && o.upper == (MB < MU ? MB : MU) && o.lower + o.upper == MB,
+        "pointer_mask=%#zx (spec %#zx) pointer_bits=%zu lower=%zu upper=%zu", Z(o.pointer_mask), Z(W(~rsv)), Z(o.pointer_bits), Z(o.lower), Z(o.upper));
+  bool canon = (p & rsv) == 0, canon2 = (p2 & rsv) == 0;
+  CHECK("mp.ctor.precondition", ((p & ~o.pointer_mask) == 0) == canon, "the class' assert %s p=%#zx, the specification says %s",
+        canon ? "rejects" : "accepts", Z(p), canon ? "canonical" : "not canonical");
+  if (canon && (p & ~o.pointer_mask) == 0) {
+    W x = o.make(p, m);
+    CHECK("mp.get.roundtrip", o.get(x) == p, "marked_ptr<T,%zu,%zu>(%#zx, %#zx).get() = %#zx", Z(MB), Z(MU), Z(p), Z(m), Z(o.get(x)));
+    CHECK("mp.get.roundtrip", o.arrow(x) == p, "operator-> = %#zx", Z(o.arrow(x)));
+    CHECK("mp.mark.roundtrip", o.mark(x) == (m & mm), "marked_ptr<T,%zu,%zu>(%#zx, %#zx).mark() = %#zx, expected %#zx", Z(MB), Z(MU), Z(p), Z(m), Z(o.mark(x)), Z(m & mm));
+    CHECK("mp.mark.roundtrip", (x & ~rsv) == p, "representation %#zx changes pointer bits of %#zx", Z(x), Z(p));
+    bool null0 = p == 0 && (m & mm) == 0;
+    CHECK("mp.reset.null", o.boolean(x) == !null0, "operator bool = %d for (p=%#zx, mark=%#zx)", (int)o.boolean(x), Z(p), Z(m & mm));
+    CHECK("mp.reset.null", o.eq(x, o.reset(w)) == null0, "== with a reset pointer");
+    if (canon2 && (p2 & ~o.pointer_mask) == 0) {
+      W y = o.make(p2, m2);
+      bool same = p == p2 && (m & mm) == (m2 & mm);
+      CHECK("mp.eq.value", o.eq(x, y) == same, "(%#zx,%#zx) == (%#zx,%#zx) gives %d, expected %d", Z(p), Z(m), Z(p2), Z(m2), (int)o.eq(x, y), (int)same);
+      CHECK("mp.eq.value", o.ne(x, y) == !same, "(%#zx,%#zx) != (%#zx,%#zx) gives %d, expected %d", Z(p), Z(m), Z(p2), Z(m2), (int)o.ne(x, y), (int)!same);
     }
-    { // reset from any state, default construction
-      MP x, d; x._ptr = reinterpret_cast<Foo*>(w); x.reset();
-      CHECK("mp.reset.null", x.get() == nullptr && x.mark() == 0 && !x && x == d && !(x != d), "after reset(): get()=%#zx mark()=%#zx", (size_t)x.get(), (size_t)x.mark());
-      CHECK("mp.reset.null", d.get() == nullptr && d.mark() == 0, "default constructed: get()=%#zx mark()=%#zx", (size_t)d.get(), (size_t)d.mark());
+  }
+  { // reset from any state, default construction
+    W x = o.reset(w), d = o.dflt();
+    CHECK("mp.reset.null", o.get(x) == 0 && o.mark(x) == 0 && !o.boolean(x) && o.eq(x, d) && !o.ne(x, d), "after reset(): get()=%#zx mark()=%#zx", Z(o.get(x)), Z(o.mark(x)));
+    CHECK("mp.reset.null", o.get(d) == 0 && o.mark(d) == 0, "default constructed: get()=%#zx mark()=%#zx", Z(o.get(d)), Z(o.mark(d)));
+  }
+  { // any representation word
+    W g = o.get(w), k = o.mark(w);
+    CHECK("mp.repr.bijective", (g & rsv) == 0 && k <= mm, "word %#zx: get()=%#zx mark()=%#zx", Z(w), Z(g), Z(k));
+    if ((g & ~o.pointer_mask) == 0) {
+      W c = o.make(g, k);
+      CHECK("mp.repr.bijective", c == w && o.eq(c, w), "word %#zx rebuilt from (get, mark) = (%#zx, %#zx) is %#zx", Z(w), Z(g), Z(k), Z(c));
     }
-    { // any representation word
-      MP a, b; a._ptr = reinterpret_cast<Foo*>(w); b._ptr = reinterpret_cast<Foo*>(w2);
-      W g = reinterpret_cast<W>(a.get()), k = a.mark();
-      CHECK("mp.repr.bijective", (g & rsv) == 0 && k <= mm, "word %#zx: get()=%#zx mark()=%#zx", (size_t)w, (size_t)g, (size_t)k);
-      if ((g & ~MP::pointer_mask) == 0) {
-        MP c(a.get(), k);
-        CHECK("mp.repr.bijective", reinterpret_cast<W>(c._ptr) == w && c == a, "word %#zx rebuilt from (get, mark) = (%#zx, %#zx) is %#zx", (size_t)w, (size_t)g, (size_t)k, (size_t)c._ptr);
-      }
-      bool same = a.get() == b.get() && a.mark() == b.mark();
-      CHECK("mp.eq.value", (a == b) == same && (a != b) == !same, "words %#zx, %#zx: == gives %d, (get,mark) equal: %d", (size_t)w, (size_t)w2, (int)(a == b), (int)same);
-      CHECK("mp.reset.null", static_cast<bool>(a) == (a.get() != nullptr || a.mark() != 0), "operator bool on word %#zx", (size_t)w);
-    }
+    bool same = o.get(w) == o.get(w2) && o.mark(w) == o.mark(w2);
+    CHECK("mp.eq.value", o.eq(w, w2) == same && o.ne(w, w2) == !same, "words %#zx, %#zx: == gives %d, (get,mark) equal: %d", Z(w), Z(w2), (int)o.eq(w, w2), (int)same);
+    CHECK("mp.reset.null", o.boolean(w) == (o.get(w) != 0 || o.mark(w) != 0), "operator bool on word %#zx", Z(w));
   }
   return bad ? 1 : 0;
 }
 
-template <W C> int rot() {
-  W v = args["in_v"];
-  W l = xenium::utils::rotate<C>::left(v), r = xenium::utils::rotate<C>::right(v);
-  CHECK("mp.rotate.inverse", xenium::utils::rotate<C>::right(l) == v && xenium::utils::rotate<C>::left(r) == v, "rotate<%zu>: v=%#zx left=%#zx right=%#zx", (size_t)C, (size_t)v, (size_t)l, (size_t)r);
+struct Rot { W (*left)(W); W (*right)(W); };
+static int rot(const Rot& f, W C) {
+  W v = args["in_v"], l = f.left(v), r = f.right(v);
+  CHECK("mp.rotate.inverse", f.right(l) == v && f.left(r) == v, "rotate<%zu>: v=%#zx left=%#zx right=%#zx right(left)=%#zx left(right)=%#zx", Z(C), Z(v), Z(l), Z(r), Z(f.right(l)), Z(f.left(r)));
   for (unsigned i = 0; i < 64; ++i)
-    CHECK("mp.rotate.inverse", ((l >> ((i + C) & 63)) & 1) == ((v >> i) & 1) && ((r >> i) & 1) == ((v >> ((i + C) & 63)) & 1), "rotate<%zu> bit %u of %#zx", (size_t)C, i, (size_t)v);
+    CHECK("mp.rotate.inverse", ((l >> ((i + C) & 63)) & 1) == ((v >> i) & 1) && ((r >> i) & 1) == ((v >> ((i + C) & 63)) & 1), "rotate<%zu> bit %u of %#zx", Z(C), i, Z(v));
   return bad ? 1 : 0;
 }
 
 constexpr W NMU = 34;   // MaxUpperMarkBits 0..33; every value > 32 >= MarkBits behaves like 33 (lower_mark_bits == 0)
-template <size_t... I> int dispatch(size_t idx, std::index_sequence<I...>) {
-  using fn = int (*)();
-  static const fn table[] = { &run<I / NMU, I % NMU>... };
+template <size_t... I> Ops pick(size_t idx, std::index_sequence<I...>) {
+  using fn = Ops (*)();
+  static const fn table[] = { &Inst<I / NMU, I % NMU>::ops... };
   return table[idx]();
 }
-template <size_t... I> int dispatch_rot(size_t c, std::index_sequence<I...>) {
-  using fn = int (*)();
-  static const fn table[] = { &rot<I>... };
-  return table[c]();
+template <size_t... I> Rot pick_rot(size_t c, std::index_sequence<I...>) {
+  static const Rot table[] = { Rot{&xenium::utils::rotate<I>::left, &xenium::utils::rotate<I>::right}... };
+  return table[c];
 }
 int main(int argc, char** argv) {
   for (int i = 1; i < argc; ++i) { char* eq = strchr(argv[i], '='); if (!eq) continue; std::string k(argv[i], eq - argv[i]);
     args[k] = strtoull(eq + 1, 0, 0); }
   W mb = args["in_mb"], mu = args["in_mu"], c = args["in_c"];
-  if (mb > 32) { printf("MarkBits %zu is rejected by the class' static_assert\n", (size_t)mb); return 2; }
-  if (mu >= NMU) { printf("MaxUpperMarkBits %zu replayed as %zu (identical instantiation: lower_mark_bits == 0)\n", (size_t)mu, (size_t)(NMU - 1)); mu = NMU - 1; }
-  if (c > 63) { printf("rotate count %zu not instantiated\n", (size_t)c); return 2; }
-  int r1 = dispatch(mb * NMU + mu, std::make_index_sequence<33 * NMU>{});
-  int r2 = dispatch_rot(c, std::make_index_sequence<64>{});
-  printf("marked_ptr<T, %zu, %zu>, rotate<%zu>: %d check(s) violated\n", (size_t)mb, (size_t)mu, (size_t)c, bad);
+  if (mb > 32) { printf("MarkBits %zu is rejected by the class' static_assert\n", Z(mb)); return 2; }
+  if (mu >= NMU) { printf("MaxUpperMarkBits %zu replayed as %zu (same instantiation: lower_mark_bits == 0)\n", Z(mu), Z(NMU - 1)); mu = NMU - 1; }
+  if (c > 63) { printf("rotate count %zu not instantiated\n", Z(c)); return 2; }
+  int r1 = run(pick(mb * NMU + mu, std::make_index_sequence<33 * NMU>{}), mb, mu);
+  int r2 = rot(pick_rot(c, std::make_index_sequence<64>{}), c);
+  printf("marked_ptr<T, %zu, %zu>, rotate<%zu>: %d check(s) violated\n", Z(mb), Z(mu), Z(c), bad);
   return (r1 || r2) ? 1 : 0;
 }
